@@ -320,6 +320,10 @@ def make_app_classes():
                 await asyncio.sleep(pol['suspend'])
             if pol.get('raise'):
                 raise RuntimeError('app: request_response raised')
+            if pol.get('close_in_handler'):
+                # the application decides, while handling a request, to close the connection (e.g. a 'bye' request)
+                self.w.rec.log(self.ep, 'app_close')
+                await self.w.eps[self.ep].close()
             fut = self.w.loop.create_future()
             it = self.w.interaction(iid)
             it['resp_future'] = fut
